@@ -183,6 +183,8 @@ struct Interp {
     next_aid: usize,
     life: Vec<Life>,
     log: Vec<String>,
+    /// number of script commands executed since the current top-level command started
+    script_steps: usize,
 }
 
 thread_local! {
@@ -289,6 +291,7 @@ unsafe impl Trace for Node {
 impl Finalize for Node {
     fn finalize(&self) {
         log(format!("cb fin {} {}", self.id, flags_str()));
+        check_garbage("FinalizeReachable", self.id);
         if tick(Kind::Fin) { panic!("fuse: fin"); }
         let s = with(|i| i.prog.classes.get(self.cls).and_then(|c| c.fin));
         if let Some(s) = s { run_script(Some(self as *const Node), s); }
@@ -311,10 +314,43 @@ impl Drop for Node {
         let id = self.id;
         with(|i| if id < i.life.len() { i.life[id] = Life::Dropping; });
         log(format!("cb drop {} {}", self.id, flags_str()));
+        check_garbage("DropReachable", self.id);
         if tick(Kind::Drop) { panic!("fuse: drop"); }
         let s = with(|i| i.prog.classes.get(self.cls).and_then(|c| c.drop));
         if let Some(s) = s { run_script(Some(self as *const Node), s); }
         // drop glue: fields (in index order), weaks, cleaner, tail
+    }
+}
+
+// ---------------------------------------------------------------- shadow reachability
+
+/// Is the object `target` reachable from the handles the program holds (slots, bag, moved-out
+/// values) through strong fields, traced or not?  Computed on the real graph, independent of the
+/// model.  Only called while no user code has run yet in the current top-level command.
+fn reachable(target: usize) -> bool {
+    let mut stack: Vec<*const Node> = Vec::new();
+    with(|i| {
+        for s in i.slots.iter().flatten() { stack.push(&**s as *const Node); }
+        for s in i.bag.iter() { stack.push(&**s as *const Node); }
+        for v in i.values.iter().flatten() {
+            if let Ok(f) = v.fields.try_borrow() { for c in f.iter().flatten() { stack.push(&**c as *const Node); } }
+        }
+    });
+    let mut seen: Vec<*const Node> = Vec::new();
+    while let Some(p) = stack.pop() {
+        if seen.contains(&p) { continue; }
+        seen.push(p);
+        let n = unsafe { &*p };
+        if n.canary.get() != ALIVE { continue; }
+        if n.id == target { return true; }
+        if let Ok(f) = n.fields.try_borrow() { for c in f.iter().flatten() { stack.push(&**c as *const Node); } }
+    }
+    false
+}
+
+fn check_garbage(kind: &str, id: usize) {
+    if with(|i| i.script_steps) == 0 && reachable(id) {
+        bad(kind, id);
     }
 }
 
@@ -442,7 +478,7 @@ fn res(s: &str) { log(format!("res {}", s)); }
 
 fn run_script(selfp: Option<*const Node>, s: usize) {
     let cmds = with(|i| i.prog.scripts.get(s).cloned().unwrap_or_default());
-    for c in cmds.iter() { exec(selfp, c); }
+    for c in cmds.iter() { with(|i| i.script_steps += 1); exec(selfp, c); }
 }
 
 fn obs_cc(cc: &Cc<Node>) -> String {
@@ -607,7 +643,8 @@ fn exec(selfp: Option<*const Node>, c: &Cmd) {
             let node = unsafe { &*p };
             let Some(cleaner) = node.cleaner.as_ref() else { return res("skip") };
             let fresh_map = verif::cleaner_map_addr(cleaner).is_none();
-            if fresh_map { let mid = with(|i| { let id = i.next_id; i.next_id += 1; id }); node.map_id.set(Some(mid)); }
+            let mut own_mid = usize::MAX;
+            if fresh_map { own_mid = with(|i| { let id = i.next_id; i.next_id += 1; id }); node.map_id.set(Some(own_mid)); }
             let aid_cell: Rc<Cell<usize>> = Rc::new(Cell::new(usize::MAX));
             let ac = aid_cell.clone();
             let script = *script;
@@ -619,8 +656,20 @@ fn exec(selfp: Option<*const Node>, c: &Cmd) {
             let aid = with(|i| { let a = i.next_aid; i.next_aid += 1; a });
             aid_cell.set(aid);
             let maddr = verif::cleaner_map_addr(cleaner).map(|a| a as usize).unwrap_or(0);
-            let mid = node.map_id.get().unwrap_or(usize::MAX);
-            if fresh_map { register_box(mid, maddr); }
+            let mut mid = if fresh_map { own_mid } else { node.map_id.get().unwrap_or(usize::MAX) };
+            if fresh_map {
+                if alloc::find_live(maddr).is_some() {
+                    // a register nested in the collection started by this one created the map first: the map
+                    // this call allocated was dropped at once (it is empty: no callback ran)
+                    let (ms, ma) = verif::cleaner_map_layout();
+                    log(format!("alloc {} {} {}", mid, ms, ma));
+                    log(format!("free {} {} {}", mid, ms, ma));
+                    mid = id_of_box(maddr);
+                    node.map_id.set(Some(mid));
+                } else {
+                    register_box(mid, maddr);
+                }
+            }
             maybe_register_side(mid, maddr);
             let old = with(|i| std::mem::replace(&mut i.cslots[*c], Some(Rc::new(cl))));
             drop(old);
@@ -750,11 +799,12 @@ fn run_program(p: Program, idx: usize, snap: bool, stream: bool) -> Vec<String> 
             values: (0..NSLOTS).map(|_| None).collect(), bag: Vec::new(),
             #[cfg(feature = "weak")]
             wparam: Vec::new(),
-            fuses: [0; 5], next_id: 0, next_aid: 0, life: Vec::new(), log: Vec::new(),
+            fuses: [0; 5], next_id: 0, next_aid: 0, life: Vec::new(), log: Vec::new(), script_steps: 0,
         }));
         if stream { println!("== program {} {}", idx, header); }
         for (k, c) in main.iter().enumerate() {
             log(format!("-- {}", k));
+            with(|i| i.script_steps = 0);
             let r = catch_unwind(AssertUnwindSafe(|| exec(None, c)));
             if r.is_err() { res("panicked"); }
             flush_pending();
